@@ -200,6 +200,8 @@ def bm_primes():
         _PRIMES["63"] = [gen.prev_prime(1 << 63), gen.prev_prime(gen.prev_prime(1 << 63))]
         _PRIMES["64"] = [gen.next_prime(1 << 63), gen.prev_prime(1 << 64)]       # outside the proved domain
         _PRIMES["big"] = [(1 << 89) - 1, (1 << 127) - 1, gen.prev_prime(1 << 182), gen.prev_prime(1 << 243)]
+        # outside the proved domain of the U256 variant: inv_mod::<4> above 2^244, `*a + p` overflows U256 above 2^255
+        _PRIMES["bigout"] = [gen.prev_prime(1 << 250), gen.next_prime(1 << 255), gen.prev_prime(1 << 256)]
     return _PRIMES
 
 
@@ -315,6 +317,10 @@ def cases(tier, rng, extended=False):
         out += mk("bm", p, lfsr(rng, p, order, 2 * order + rng.randrange(3)), f"lfsr {order}")
     # (an even modulus m makes mg_2adic_inv spin 2^64 / (2-part of m) times before it underflows: only moduli
     # with a large 2-part are usable as test inputs; the model answers `panic` for every even modulus)
+    for _ in range(8 * scale):
+        p = rng.choice(P["bigout"])
+        order = rng.randrange(1, 6)
+        out += mk("bm_big", p, lfsr(rng, p, order, 2 * order + rng.randrange(3)), f"lfsr {order}")
     for p in [0, 1, 1 << 63, 3 << 62, 9, 15, 65537 * 3]:
         for _ in range(2):
             n = rng.randrange(2, 7)
@@ -338,46 +344,36 @@ def parse(case):
     return p, seq
 
 
-def expected_panic_reason(p, seq):
-    """inside the proved domain: the exact set of inputs on which the code does not return (bm_no_panic_iff)"""
-    n = len(seq)
-    if n == 0:
-        return "empty sequence (u[0] = 1 on an empty vector)"
-    nz = [i for i, x in enumerate(seq) if x % p]
-    if nz == [0]:
-        return "sequence [a,0,...,0] (v[n] out of range)"
-    if len(nz) <= 1:
-        return None
-    if not has_connection_poly(seq, p):
-        return "no connection polynomial of degree <= n - n/2 with non-zero constant term fits the second half (assert u[0] != 0)"
-    return None
-
-
 def oracle(case, ans):
+    """Specification (independent of the algorithm): a returned vector is a connection polynomial of the sequence on the
+    window n/2 <= i < n (constant term 1, degree <= n - n/2, reduced), minimal when the sequence determines it; the empty
+    vector is acceptable only for a sequence with at most one non-zero term; a panic is acceptable only when no
+    connection polynomial exists (decided by Gaussian elimination). The panics on the empty sequence and on [a,0,...,0]
+    are failures (recorded finding sparse-det-degenerate-sequence-panic, see finding_key)."""
     p, seq = parse(case)
     n = len(seq)
     if ans in ("hang", "abort"):
         return f"{ans}"
-    if not in_domain(case.op, p, seq):
+    dom = in_domain(case.op, p, seq)
+    panic = ans == "panic" or ans.startswith("panic ")
+    if not dom:
         # outside the hypotheses of the theorems any panic is accepted; a returned vector must still be sound
         # when p is an odd prime and the residues are reduced (p >= 2^63: release wraps, chk panics)
-        if ans == "panic" or ans.startswith("panic "):
+        if panic or p < 3 or not gen.is_prime(p) or any(x >= p for x in seq):
             return None
-        if p < 3 or not gen.is_prime(p) or any(x >= p for x in seq):
-            return None
-    else:
-        why = expected_panic_reason(p, seq)
-        if ans == "panic" or ans.startswith("panic "):
-            return None if why else "panic on an input for which a connection polynomial exists"
-        if why:
-            return f"returned {ans[:60]} although a panic is expected: {why}"
     nz = [i for i, x in enumerate(seq) if x % p]
+    if panic:
+        if n == 0:
+            return "panic on the empty sequence (u[0] = 1 on an empty vector)"
+        if nz == [0]:
+            return "panic on the sequence [a,0,...,0] (v[n] out of range) although 1 is a connection polynomial"
+        if len(nz) <= 1:
+            return "panic on a sequence with at most one non-zero term"
+        if has_connection_poly(seq, p):
+            return "panic on an input for which a connection polynomial exists"
+        return None     # assert!(u[0] != 0): no connection polynomial fits the window; nothing correct could be returned
     if ans == "-":
-        if len(nz) == 0 or (len(nz) == 1 and nz[0] >= 1):
-            return None
-        return "empty vector for a sequence with two non-zero terms"
-    if len(nz) <= 1 and in_domain(case.op, p, seq):
-        return f"expected the empty vector, got {ans[:60]}"
+        return None if len(nz) <= 1 else "empty vector for a sequence with two non-zero terms"
     try:
         c = [int(x) for x in ans.split(",")]
     except ValueError:
@@ -434,7 +430,7 @@ def finding_key(case, ans, profile):
     nz = [i for i, x in enumerate(seq) if x % p]
     if len(seq) == 0 or nz == [0]:
         return "sparse-det-degenerate-sequence-panic"
-    return "bm-zero-constant-term-panic"
+    return None
 
 
 RULE_BM = ("Berlekamp-Massey (ops bm / bm_big, K+O in both profiles): every sequence of length <= 6 over GF(3), GF(5) (<= 5 over GF(7)); lengths 0..3 "
